@@ -128,6 +128,28 @@ func one(run *vh.Run, label string, variant int) {
 	}
 	// final forwarders L[kind][opcode]
 	price := new(big.Int).Mul(c.BaseFee(), big.NewInt(3))
+	// even variants: somebody transfers ZERO tokens to each precompile address through the ERC-20 precompile beforehand
+	// (moves nothing; whatever it may leave behind at those addresses, a later read-only tree may not change it)
+	if erc20, ok := kinds["erc20"]; ok && variant%2 == 0 {
+		var ks []string
+		for k := range kinds {
+			ks = append(ks, k)
+		}
+		sort.Strings(ks)
+		var txs [][]byte
+		on0 := c.Nonce(e.owner.Addr)
+		for i, k := range ks {
+			data, err := cpcabi.Erc20CpcInfo.ABI.Pack("transfer", kinds[k], big.NewInt(0))
+			if err != nil {
+				continue
+			}
+			to := erc20
+			bz, _ := c.EthTx(e.owner, vh.LegacyTx(on0+uint64(i), &to, nil, 300_000, price, data))
+			txs = append(txs, bz)
+		}
+		mustOK(run, label, "zero-value ERC-20 transfers to the precompile addresses", c.NextBlock(txs, nil))
+		run.Count("worlds_with_zero_value_transfers_to_precompile_addresses", 1)
+	}
 	var setup [][]byte
 	dn := c.Nonce(e.deploy.Addr)
 	var kindNames []string
